@@ -53,6 +53,10 @@ func wiRecord(rng *rand.Rand, i int) *DataRecord {
 	return r
 }
 
+// wiStreamSamples, when set, is the independent statement of the samples a record must carry (the stream's content at
+// the record's frames): the payload expectation then does not read the record's own data slice.
+var wiStreamSamples []RawType
+
 func wiEmit(id int, kind, via string, r *DataRecord, parts [][]byte) {
 	var hdr, pay []byte
 	if len(parts) > 0 {
@@ -71,7 +75,11 @@ func wiEmit(id int, kind, via string, r *DataRecord, parts [][]byte) {
 		}
 		fields["version"], fields["dtype"] = wiU(1, 0), wiU(1, uint64(dt))
 		fields["period"], fields["vpa"] = wiF32(r.sampPeriod), wiF32(r.voltsPerArb)
-		for _, v := range r.data {
+		samples := r.data
+		if wiStreamSamples != nil {
+			samples = wiStreamSamples
+		}
+		for _, v := range samples {
 			expect = append(expect, int(v&0xff), int(v>>8))
 		}
 	} else {
@@ -101,6 +109,78 @@ func TestVerifWire(t *testing.T) {
 		wiEmit(id, "record", "direct", r, messageRecords(r))
 		id++
 		wiEmit(id, "summary", "direct", r, messageSummaries(r))
+	}
+	// the publisher lags behind: records cut from a real stream by ProcessSegments wait in the publication queue while
+	// the source processes (trims, appends) further blocks, and only then are the messages built.  A message must
+	// carry the samples the stream had at the record's frames when the record was made.
+	{
+		const nchan, npre, nsamp = 2, 4, 16
+		val := func(c int, f int64) RawType { return RawType((f*7 + int64(c)*1000 + (f%13)*(f%5) + 17) & 0xffff) }
+		owned := false
+		if PubRecordsChan == nil { // (real-socket mode: this stage owns the queues, the sockets are opened further down)
+			PubRecordsChan = make(chan []*DataRecord, 500)
+			PubSummariesChan = make(chan []*DataRecord, 500)
+			owned = true
+		}
+		ds := &AnySource{nchan: nchan, name: "VerifWire"}
+		ds.sampleRate = 10000
+		ds.samplePeriod = 100 * time.Microsecond
+		ds.PrepareChannels()
+		ds.rowColCodes = make([]RowColCode, nchan)
+		if err := ds.PrepareRun(npre, nsamp); err != nil {
+			t.Fatal(err)
+		}
+		if err := ds.ChangeTriggerState(&FullTriggerState{ChannelIndices: []int{0, 1}, TriggerState: TriggerState{AutoTrigger: true, AutoDelay: 0}}); err != nil {
+			t.Fatal(err)
+		}
+		vTakeRecords()
+		frame0 := int64(1) << 33
+		next := frame0
+		t0 := time.Unix(1700000000, 0)
+		held := []*DataRecord{}
+		for b, L := range []int{64, 200, 48, 130, 31, 90} {
+			block := new(dataBlock)
+			block.segments = make([]DataSegment, nchan)
+			for c := 0; c < nchan; c++ {
+				data := make([]RawType, L)
+				for i := range data {
+					data[i] = val(c, next+int64(i))
+				}
+				block.segments[c] = DataSegment{rawData: data, framesPerSample: 1, framePeriod: ds.samplePeriod, firstFrameIndex: FrameIndex(next),
+					firstTime: t0.Add(time.Duration(next-frame0) * ds.samplePeriod)}
+			}
+			block.nSamp = L
+			if err := ds.ProcessSegments(block); err != nil {
+				t.Fatal(err)
+			}
+			next += int64(L)
+			if b%2 == 1 { // the queue is looked at only every other block, and nothing is encoded yet
+				time.Sleep(5 * time.Millisecond)
+				for _, batch := range vTakeRecords() {
+					held = append(held, batch...)
+				}
+			}
+		}
+		time.Sleep(5 * time.Millisecond)
+		for _, batch := range vTakeRecords() {
+			held = append(held, batch...)
+		}
+		for _, r := range held {
+			want := make([]RawType, len(r.data))
+			for i := range want {
+				want[i] = val(r.channelIndex, int64(r.trigFrame)-int64(r.presamples)+int64(i))
+			}
+			wiStreamSamples = want
+			id++
+			wiEmit(id, "record", "pipeline-lagging", r, messageRecords(r))
+			wiStreamSamples = nil
+		}
+		if owned {
+			PubRecordsChan, PubSummariesChan = nil, nil
+		}
+		if len(held) < 20 {
+			t.Fatalf("pipeline-lagging stage: only %d records", len(held))
+		}
 	}
 	// messages are values: one that has been built must not change when further ones are built (a publisher holds a
 	// message while others are encoded).  Build batches with both builders interleaved, look at them afterwards.
